@@ -2,6 +2,7 @@
 # Usage: lib/try_seed.sh <seed-dir-or-worktree with patch.diff and tests/demo_seed.rs> <check ids...>
 # 1. confirms in the scratch worktree: existing tests pass with the patch, demo fails with it, demo passes without
 # 2. applies the patch to /repo, runs the given checks (quick), undoes the patch
+export VERIF_EVIDENCE_DIR=/verif/build/evidence_scratch; mkdir -p $VERIF_EVIDENCE_DIR
 WT=$1; shift
 cd "$WT" || exit 9
 export CARGO_TARGET_DIR=$WT/target CARGO_NET_OFFLINE=true
